@@ -897,10 +897,10 @@ func (c *clusterClient) doretry(
 			var ml []Completed
 		recover:
 			ml = ml[:0]
-			var txIdx int // check transaction block, if zero, then not in transaction
+			txIdx := -1 // index of the MULTI of the transaction block being scanned, -1 if not in a transaction
 			for i, resp := range resps.s {
 				if resp.NonRedisError() == errConnExpired {
-					if txIdx > 0 {
+					if txIdx >= 0 {
 						ml = re.commands[txIdx:]
 					} else {
 						ml = re.commands[i:]
@@ -911,7 +911,7 @@ func (c *clusterClient) doretry(
 				if isMulti(re.commands[i]) {
 					txIdx = i
 				} else if isExec(re.commands[i]) {
-					txIdx = 0
+					txIdx = -1
 				}
 			}
 			if len(ml) > 0 {
